@@ -625,6 +625,9 @@ class ModelGen:
         if depth <= 0 or r.random() < 0.35 or not ints:
             return ("id", r.choice(ints)) if ints and r.random() < 0.6 else self.lit()
         k = r.choice(["PLUS", "MINUS", "MULT", "MOD", "MIN", "MAX"])
+        if k == "MOD" and ints and r.random() < 0.5:
+            # a variable as divisor: the text then contains '%' followed by a letter (nothing evaluates it here)
+            return ("bin", k, self.int_expr(ints, depth - 1), ("id", r.choice(ints)))
         return ("bin", k, self.int_expr(ints, depth - 1), self.int_expr(ints, depth - 1) if k != "MOD" else self.lit(1, 7))
 
     def int_pred(self, ints, bools):
